@@ -141,6 +141,14 @@ def url_binding(ent: int, alg: int, rs: int, mut: int, vkey: int, response: bool
     return res == expect, True, "verified=%s expected=%s exc=%r" % (res, expect, exc)
 
 
+def _rs_for(m, e):
+    if m in (2, 3, 9):
+        return 1 + (e % 2)          # these mutations need a RelayState to act on
+    if m == 4:
+        return 0                    # ... and this one needs it absent
+    return (m + e) % 3
+
+
 CONDITIONS = [
     Cond(name="schedule", fn="schedule",
          params=[("s0", "int"), ("s1", "int"), ("s2", "int"), ("s3", "int"), ("s4", "int"), ("s5", "int"), ("n", "int"),
@@ -157,7 +165,7 @@ CONDITIONS = [
     Cond(name="url_binding", fn="url_binding",
          params=[("ent", "int"), ("alg", "int"), ("rs", "int"), ("mut", "int"), ("vkey", "int"), ("response", "bool")],
          pre=["0 <= ent < 3", "0 <= alg < 5", "0 <= rs < 3", "0 <= mut < %d" % len(MUT), "0 <= vkey < 3"],
-         partitions={"quick": [{"mut": m, "alg": (m + e) % 5, "rs": (m + e) % 3, "response": (m + e) % 2 == 0, "ent": e} for m in range(len(MUT)) for e in range(3)],
+         partitions={"quick": [{"mut": m, "alg": (m + e) % 5, "rs": _rs_for(m, e), "response": (m + e) % 2 == 0, "ent": e} for m in range(len(MUT)) for e in range(3)],
                      "thorough": [{"mut": m, "alg": a} for m in range(len(MUT)) for a in range(5)]},
          timeout={"quick": 600, "thorough": 1200}, path_timeout=60,
          functions=["pack.http_redirect_message (signed branch)", "sigver.verify_redirect_signature", "sigver.RSACrypto.get_signer", "sigver.RSASigner.sign/verify"],
